@@ -19,11 +19,12 @@ def _mk_inputs(case, d):
     cols = case["cols"]
     uris = []
     for k, px in enumerate(case["inputs"]):
-        p = os.path.join(d, f"in{k}.cool")
+        # inputs in files of their own, or all of them as groups of ONE file (e.g. the cells of a single-cell file)
+        p = os.path.join(d, "in.cool") + f"::/cells/s{k}" if case.get("shared_file") else os.path.join(d, f"in{k}.cool")
         bits = case["bits_in"][k] if "bits_in" in case else case["bits"]
         cooler.create_cooler(p, bins, gen.pixels_frame(px, cols, {c: np.int64 for c in cols}),
                              columns=cols if cols != ["count"] else None, dtypes=_dtypes(cols, bits, case.get("unsigned", False)),
-                             ordered=True, symmetric_upper=case["mode"] == "symm")
+                             ordered=True, symmetric_upper=case["mode"] == "symm", mode="a" if case.get("shared_file") else "w")
         uris.append(p)
     return uris
 
